@@ -252,6 +252,7 @@ type cluster struct {
 	lastCoordinatorAddr string
 
 	running *atomic.Bool
+	sim     simBackend
 }
 
 var _ Cluster = (*cluster)(nil)
@@ -372,6 +373,11 @@ func retryBootstrap(ctx context.Context, maxAttempts int, backoff time.Duration,
 // retryBootstrap emits one log line per failed attempt and the wrapped hints
 // travel with the error to the final caller.
 func (x *cluster) bootstrap(ctx context.Context) error {
+	if b := simBackendFor(x.node); b != nil {
+		x.sim = b
+		x.messages = b.Join(x.node)
+		return nil
+	}
 	conf, err := x.buildConfig()
 	if err != nil {
 		return fmt.Errorf("failed to build engine config: %w (hint: check Olric bind addresses, discovery config)", err)
@@ -451,6 +457,10 @@ func (x *cluster) Stop(ctx context.Context) error {
 	}
 	x.eventsLock.Unlock()
 
+	if x.sim != nil {
+		x.sim.Leave(x.node)
+		return nil
+	}
 	if err := x.server.Shutdown(ctx); err != nil {
 		x.logger.Errorf("failed to stop cluster engine: %v (hint: check for lingering connections or blocked shutdown)", err)
 		return err
@@ -780,7 +790,7 @@ func (x *cluster) Members(ctx context.Context) ([]*Peer, error) {
 	x.mu.RLock()
 	defer x.mu.RUnlock()
 
-	members, err := x.client.Members(ctx)
+	members, err := x.simMembers(ctx)
 	if err != nil {
 		return nil, err
 	}
@@ -812,7 +822,7 @@ func (x *cluster) IsLeader(ctx context.Context) bool {
 	x.mu.RLock()
 	defer x.mu.RUnlock()
 
-	members, err := x.client.Members(ctx)
+	members, err := x.simMembers(ctx)
 	if err != nil {
 		x.logger.Errorf("failed to fetch cluster members: %v (hint: check cluster connectivity)", err)
 		return false
@@ -836,11 +846,11 @@ func (x *cluster) coordinatorAddress(ctx context.Context) string {
 	x.mu.RLock()
 	defer x.mu.RUnlock()
 
-	if x.client == nil {
+	if x.client == nil && x.sim == nil {
 		return ""
 	}
 
-	members, err := x.client.Members(ctx)
+	members, err := x.simMembers(ctx)
 	if err != nil {
 		x.logger.Errorf("failed to fetch cluster members: %v (hint: check cluster connectivity)", err)
 		return ""
@@ -872,6 +882,9 @@ func (x *cluster) GetPartition(actorName string) uint64 {
 	x.mu.RLock()
 	defer x.mu.RUnlock()
 
+	if x.sim != nil {
+		return 0
+	}
 	resp, err := x.dmap.Get(ctx, composeKey(namespaceActors, actorName))
 	if err != nil {
 		return 0
@@ -903,6 +916,9 @@ func (x *cluster) NextRoundRobinValue(ctx context.Context, key string) (int, err
 		return -1, fmt.Errorf("invalid round-robin key: %s", key)
 	}
 
+	if x.sim != nil {
+		return x.sim.Incr(ctx, x.node.PeersAddress(), composedKey, 1)
+	}
 	next, err := x.dmap.Incr(ctx, composedKey, 1)
 	if err != nil {
 		return -1, err
@@ -1530,6 +1546,9 @@ func (x *cluster) putRecord(ctx context.Context, namespace recordNamespace, key 
 	ctx, cancel := context.WithTimeout(ctx, x.writeTimeout)
 	defer cancel()
 
+	if x.sim != nil {
+		return x.sim.Put(ctx, x.node.PeersAddress(), composeKey(namespace, key), value, false, 0)
+	}
 	return x.dmap.Put(ctx, composeKey(namespace, key), value)
 }
 
@@ -1566,6 +1585,9 @@ func (x *cluster) putRecordIfAbsent(ctx context.Context, namespace recordNamespa
 	ctx, cancel := context.WithTimeout(ctx, x.writeTimeout)
 	defer cancel()
 
+	if x.sim != nil {
+		return x.sim.Put(ctx, x.node.PeersAddress(), composeKey(namespace, key), value, true, simTTL(options))
+	}
 	return x.dmap.Put(ctx, composeKey(namespace, key), value, append([]olric.PutOption{olric.NX()}, options...)...)
 }
 
@@ -1575,6 +1597,9 @@ func (x *cluster) getRecord(ctx context.Context, namespace recordNamespace, key 
 	ctx, cancel := context.WithTimeout(ctx, x.readTimeout)
 	defer cancel()
 
+	if x.sim != nil {
+		return x.sim.Get(ctx, x.node.PeersAddress(), composeKey(namespace, key))
+	}
 	resp, err := x.dmap.Get(ctx, composeKey(namespace, key))
 	if err != nil {
 		return nil, err
@@ -1589,6 +1614,9 @@ func (x *cluster) deleteRecord(ctx context.Context, namespace recordNamespace, k
 	ctx, cancel := context.WithTimeout(ctx, x.writeTimeout)
 	defer cancel()
 
+	if x.sim != nil {
+		return x.sim.Delete(ctx, x.node.PeersAddress(), composeKey(namespace, key))
+	}
 	_, err := x.dmap.Delete(ctx, composeKey(namespace, key))
 	return err
 }
@@ -1628,6 +1656,9 @@ func (x *cluster) scanGrains(ctx context.Context, visit func(*internalpb.Grain))
 //
 // Callers must hold x.mu (read lock) for the duration of the scan.
 func scanNamespace[T any](ctx context.Context, x *cluster, namespace recordNamespace, rrName string, decodeRecord func([]byte) (T, error), visit func(T)) error {
+	if x.sim != nil {
+		return simScan(ctx, x, namespace, rrName, decodeRecord, visit)
+	}
 	scanner, err := x.dmap.Scan(ctx)
 	if err != nil {
 		return err
